@@ -41,7 +41,7 @@ EXPLANATION = ("Exhaustive sub-space (both tiers): every labelled graph up to is
                "Everything else is seeded random / "
                "corpus sampling.  Theorems (coq/props/C11.v, all closed under the global context): C11_vocabulary, C11_aut_count, C11_aut_group, "
                "C11_vf2_contract, C11_vf2_contract_items, C11_orbits_exact, C11_orbits_partition, C11_components, C11_wl_never_splits, C11_wfb_sound, "
-               "C11_dedup_sublist, C11_prune_complete, C11_rep_ok, C11_prune_complete_aut, C11_prune_same_results.")
+               "C11_dedup_sublist, C11_dedup_first_of_class, C11_partial_prune, C11_prune_complete, C11_rep_ok, C11_prune_complete_aut, C11_prune_same_results.")
 TRUSTED_BASE = [
     "Coq 8.16.1 kernel + vm_compute (no native_compute)",
     "hand-written model coq/model/C11_Model.v tied to synkit/Graph/Matcher/{automorphism,auto_est,dedup_matches}.py and the pruning call of "
@@ -561,8 +561,15 @@ def coq_case(case):
     if k == "aut":
         if not _in_domain(case["g"]):
             return None
-        if len(case["g"]["nodes"]) > 12 and _mono_cost(case["g"], _lab_a, lambda a: GG.half(a["order"]), 8 * MONO_BUDGET) > 8 * MONO_BUDGET:
-            return None          # >= 100 atoms: the verified enumerator is quadratic per search node; oracle only
+        if len(case["g"]["nodes"]) > 12:        # the analysis enumerates per component; >= 100 atoms in one component: oracle only
+            g = case["g"]
+            cost = 0
+            for c in _components(g):
+                cs = set(c)
+                sub = {"nodes": [x for x in g["nodes"] if x[0] in cs], "edges": [e for e in g["edges"] if e[0] in cs and e[1] in cs]}
+                cost += _mono_cost(sub, _lab_a, lambda a: GG.half(a["order"]), 8 * MONO_BUDGET)
+            if cost > 8 * MONO_BUDGET:
+                return None
         return "run_aut_wf %s" % _coq_graph(case["g"])
     if k == "dedup":
         if not (_in_domain(case["p"]) and _in_domain(case["h"])):
@@ -604,12 +611,32 @@ def _adj(g, elab):
 
 
 def brute_auts(nodes, lab, adj, pin=None, first=False):
-    """label- and adjacency-preserving bijections nodes -> nodes by plain backtracking (independent of networkx / the model)."""
+    """label- and adjacency-preserving bijections nodes -> nodes by plain backtracking (independent of networkx / the model).
+    Nodes are visited in breadth-first order (from the pinned node), so that - inside a component - every node after the
+    first has an already mapped neighbour and only the neighbours of that neighbour's image are candidates."""
     out = []
-    order = list(nodes)
-    if pin:
-        order = [pin[0]] + [x for x in order if x != pin[0]]
+    nodes = list(nodes)
+    start = [pin[0]] if pin else []
+    order, seen = [], set()
+    for s0 in start + nodes:
+        if s0 in seen:
+            continue
+        seen.add(s0)
+        q = [s0]
+        while q:
+            u = q.pop(0)
+            order.append(u)
+            for w in adj[u]:
+                if w not in seen and w in lab:
+                    seen.add(w)
+                    q.append(w)
+    order = [u for u in order if u in set(nodes)]
     n = len(order)
+    pos = {u: i for i, u in enumerate(order)}
+    anchor = {}
+    for u in order:
+        prev = [w for w in adj[u] if w in pos and pos[w] < pos[u]]
+        anchor[u] = prev[0] if prev else None
 
     def rec(i, m, used):
         if first and out:
@@ -618,10 +645,20 @@ def brute_auts(nodes, lab, adj, pin=None, first=False):
             out.append(dict(m))
             return
         u = order[i]
-        for v in ([pin[1]] if (pin and i == 0) else nodes):
-            if v in used or lab[u] != lab[v]:
+        if pin and i == 0:
+            cands = [pin[1]]
+        elif anchor[u] is not None:
+            cands = list(adj[m[anchor[u]]])
+        else:
+            cands = nodes
+        for v in cands:
+            if v in used or v not in lab or lab[u] != lab[v]:
                 continue
-            if all(adj[u].get(w) == adj[v].get(x) for w, x in m.items()):
+            if len(adj[u]) != len(adj[v]):
+                continue
+            # every edge from u to an already mapped node goes to an edge with the same label; for a bijection of a finite
+            # graph onto itself that is enough (the induced edge map is injective, hence onto: non-edges go to non-edges)
+            if all(adj[v].get(m[w]) == x for w, x in adj[u].items() if w in m):
                 m[u] = v
                 used.add(v)
                 rec(i + 1, m, used)
